@@ -26,6 +26,14 @@ Proof.
     apply Qlt_Rlt in C. rewrite Q2R_inject_Z in C. rewrite numR_int.
     destruct (Rlt_dec (Q2R q) 0); [lra|]. destruct (Rlt_dec 0 (Q2R q)); [reflexivity|lra].
 Qed.
+Lemma nabs_R a x : numR a = Some x -> numR (nabs a) = Some (Rabs x).
+Proof.
+  intros Ha. pose proof (numR_nneg a x Ha) as Hn. destruct (numR_qv _ _ Ha) as (q & Q & E). unfold nabs, nlt. rewrite Q. simpl.
+  destruct (Qcompare q (inject_Z 0)) eqn:C.
+  - apply Qeq_alt in C. apply Qeq_eqR in C. rewrite Q2R_inject_Z in C. rewrite Ha. f_equal. rewrite Rabs_right; [reflexivity|subst x; lra].
+  - apply Qlt_alt in C. apply Qlt_Rlt in C. rewrite Q2R_inject_Z in C. rewrite Hn. f_equal. rewrite Rabs_left; [reflexivity|subst x; exact C].
+  - apply Qgt_alt in C. apply Qlt_Rlt in C. rewrite Q2R_inject_Z in C. rewrite Ha. f_equal. rewrite Rabs_right; [reflexivity|subst x; lra].
+Qed.
 Lemma nfact_R a x m v : numR a = Some x -> nfact a = Some m -> rfact x = Some v -> numR m = Some v.
 Proof.
   intros Ha Hf Hv. unfold rfact in Hv. destruct (is_int x) as [[z Hz]|]; [|discriminate]. destruct (Rle_dec 0 x); [|discriminate].
@@ -65,6 +73,7 @@ Proof.
     + inversion He; inversion Hd; subst. now apply numR_nneg.
     + destruct (nfact m) as [f|] eqn:F; [|discriminate]. inversion He; subst. eapply nfact_R; eauto.
     + inversion He; inversion Hd; subst. now apply nsgn_R.
+    + inversion He; inversion Hd; subst. now apply nabs_R.
   - apply ebind_ok in He. destruct He as (a & El & _ & He). apply ebind_ok in He. destruct He as (b & Er & _ & He).
     cbn [den] in Hd. apply bind2_some in Hd. destruct Hd as (x & y & Dl & Dr & Hop).
     specialize (IHl a x El Dl). specialize (IHr b y Er Dr).
@@ -100,6 +109,7 @@ Proof.
         - rewrite numR_nan in Hm. discriminate. }
       rewrite F. eexists. split; [reflexivity|]. eapply nfact_R; eauto. unfold rfact. rewrite I. destruct (Rle_dec 0 (IZR z)); [exact Hd|contradiction].
     + inversion Hd; subst. left. eexists. split; [reflexivity|]. now apply nsgn_R.
+    + inversion Hd; subst. left. eexists. split; [reflexivity|]. now apply nabs_R.
   - apply bind2_some in Hd. destruct Hd as (x & y & Dl & Dr & Hop).
     destruct (IHl x Dl) as [(a & Ea & Ha)|Ei]; [|right; rewrite Ei; reflexivity]. rewrite Ea, (ebind_fin a _ x Ha).
     destruct (IHr y Dr) as [(b & Eb & Hb)|Ei]; [|right; rewrite Ei; destruct (eval rho l); reflexivity]. rewrite Eb, (ebind_fin b _ y Hb).
@@ -132,6 +142,7 @@ Fixpoint int_expr (rho:Eval.env) (e:expr) : bool :=
   | Un UNeg c => int_expr rho c
   | Un UFact c => int_expr rho c
   | Un USgn _ => false
+  | Un UAbs c => int_expr rho c
   | Bin k l r => match k with
                  | KAdd | KSub | KMul => int_expr rho l && int_expr rho r
                  | KPow => int_expr rho l && (match r with Const (NInt y) => (0 <=? y)%Z | _ => false end)
@@ -144,6 +155,7 @@ Fixpoint evalZ (rho:Eval.env) (e:expr) : option Z :=
   | Var v => match rho v with Some (NInt z) => Some z | _ => None end
   | Un UNeg c => option_map Z.opp (evalZ rho c)
   | Un UFact c => match evalZ rho c with Some z => if (z <? 0)%Z then None else Some (fact_nat (Z.to_nat z)) | None => None end
+  | Un UAbs c => option_map Z.abs (evalZ rho c)
   | Bin KAdd l r => match evalZ rho l, evalZ rho r with Some a, Some b => Some (a + b)%Z | _, _ => None end
   | Bin KSub l r => match evalZ rho l, evalZ rho r with Some a, Some b => Some (a - b)%Z | _, _ => None end
   | Bin KMul l r => match evalZ rho l, evalZ rho r with Some a, Some b => Some (a * b)%Z | _, _ => None end
@@ -157,7 +169,10 @@ Proof.
   - destruct c; try discriminate. reflexivity.
   - destruct (rho x) as [[z| |]|]; try discriminate. reflexivity.
   - destruct u; try discriminate; specialize (IH H); destruct (evalZ rho e) as [z|]; simpl; rewrite IH; simpl; auto.
-    destruct (z <? 0)%Z; reflexivity.
+    + destruct (z <? 0)%Z; reflexivity.
+    + (* abs: exact for an integer of any size *)
+      f_equal. unfold nabs, nlt. cbn [qv]. unfold Qcompare. cbn [Qnum Qden inject_Z]. rewrite Z.mul_1_r. change (0 * 1)%Z with 0%Z.
+      destruct (Z.compare_spec z 0) as [->|L|G]; cbn [nneg]; f_equal; lia.
   - destruct k; try discriminate.
     1-3: apply andb_prop in H; destruct H as (Hl & Hr); specialize (IHl Hl); specialize (IHr Hr);
          destruct (evalZ rho l) as [a|], (evalZ rho r) as [b|]; rewrite IHl; simpl; try rewrite IHr; simpl; reflexivity.
